@@ -272,6 +272,14 @@ func runC18(c *Ctx) {
 							for _, e := range x.Edges {
 								walk(e, d+1)
 							}
+						case *ssa.Slice:
+							// a PREFIX of the caller's string (src[:i], e.g. the part before a raw '#' when fragments
+							// are to be ignored): cut before any decoding, it shortens the text but does not alter it
+							if x.Low == nil {
+								walk(x.X, d+1)
+							} else {
+								tb = append(tb, "the URL handed to the walker is a slice of the caller's string that does not start at its beginning")
+							}
 						case *ssa.Extract, *ssa.TypeAssert, *ssa.UnOp, *ssa.Const, *ssa.Parameter, *ssa.ChangeType:
 						case *ssa.Call:
 							tb = append(tb, "the URL is passed through "+calleeName(&x.Call)+" before it is walked: the value of the last parameter (or the whole text) can differ from what the caller supplied")
